@@ -367,16 +367,29 @@ pub fn run(tier: &str) -> Result<Report, String> {
             vec!["a".into(), "b".into(), "c".into()],
         ];
         let mut n_decl = 0u64;
+        // every name that is a variable of SOME network of this family is a candidate for EVERY network (valid in one context,
+        // invalid in another), and the family is gone through twice on this thread: in the second pass every name has been
+        // accepted for some other context before (acceptance must be a function of (tree, context), not of the call history)
+        let mut all_names: Vec<String> = vec![];
         for names in &orders {
+            for n in names {
+                if !all_names.contains(n) {
+                    all_names.push(n.clone());
+                }
+            }
+        }
+        for (pass, names) in orders.iter().map(|o| (0, o)).chain(orders.iter().map(|o| (1, o))) {
             let bn = BooleanNetwork::new(RegulatoryGraph::new(names.clone()));
             let mut ctxs = vec![SymbolicContext::new(&bn).map_err(|e| format!("harness: {e}"))?];
             ctxs.push(biodivine_hctl_model_checker::mc_utils::get_extended_symbolic_graph(&bn, 2)?.symbolic_context().clone());
             let mut candidates: Vec<(String, bool)> = names.iter().map(|n| (n.clone(), true)).collect();
-            for extra in ["q", "v12", "a_", "ab", "v1_", "x", "v", "aa", "B"] {
-                if !names.iter().any(|n| n == extra) {
-                    candidates.push((extra.to_string(), false));
+            for extra in ["q", "v12", "a_", "ab", "v1_", "x", "v", "aa", "B"].iter().map(|s| s.to_string()).chain(all_names.iter().cloned()) {
+                if !names.iter().any(|n| *n == extra) && !candidates.iter().any(|(c, _)| *c == extra) {
+                    // in the quick tier the foreign variable names are only combined with the first own name
+                    candidates.push((extra, false));
                 }
             }
+            let _ = pass;
             for (ci, c) in ctxs.iter().enumerate() {
                 for (n1, ok1) in &candidates {
                     for (n2, ok2) in &candidates {
@@ -400,7 +413,7 @@ pub fn run(tier: &str) -> Result<Report, String> {
                                 Err(p) => Some(format!("panic: {p}")),
                             };
                             if let Some(w) = what {
-                                rep.violations.push(Violation { case: json!({"kind": "none"}), what: format!("network with variables declared as {names:?} (context {ci}), formula `{text}`: {w}"), size: 50 + names.len() });
+                                rep.violations.push(Violation { case: json!({"kind": "none"}), what: format!("network with variables declared as {names:?} (context {ci}, pass {pass} over the family on one thread), formula `{text}`: {w}"), size: 50 + names.len() });
                             }
                         }
                     }
